@@ -142,10 +142,10 @@ def oracle(t):
         else:
             if b.denominator != 1 or b < 0:
                 raise OOS
-            if b > 64 or (a.numerator.bit_length() + a.denominator.bit_length()) * int(b) > 200000:
+            if b > 64 or (a.numerator.bit_length() + a.denominator.bit_length()) * int(b) > 40000:
                 raise TooBig
             r = a ** int(b)
-        if r.numerator.bit_length() + r.denominator.bit_length() > 400000:
+        if r.numerator.bit_length() + r.denominator.bit_length() > 60000:
             raise TooBig
         return r
     a = oracle(t[2]); op = t[1]
